@@ -39,6 +39,8 @@ def main():
         d = d.rstrip("/")
         prop = d.split("/")[-3]
         n = d.split("/")[-1]
+        if "/seed2/" in d:
+            n = str(int(n) + 2)  # second seeding round
         sid = f"{prop}-{n}"
         meta = json.load(open(os.path.join(d, "meta.json")))
         cmd = meta.get("demo_cmd", "")
